@@ -397,7 +397,8 @@ impl<'a> Visit<'a> for FileInfo<'a> {
 	fn string_table(&mut self, lang: &'a [u16]) -> bool {
 		if let Ok(lang) = Language::parse(lang) {
 			self.lang = lang;
-			self.strings.insert(lang, HashMap::new());
+			// A language may have more than one string table, keep the strings of the earlier ones
+			self.strings.entry(lang).or_default();
 			return true;
 		}
 		false
